@@ -53,4 +53,10 @@ theorem toInt_u16_as_i32 (x : UInt16) : (x.toUInt32.toInt32).toInt = (x.toNat : 
   simp [BitVec.toInt_eq_toNat_cond]
   omega
 
+/-- Go `int(x)` for an unsigned 64-bit value below 2^63 keeps the value -/
+theorem toInt_u64_as_i64 (x : UInt64) (h : x.toNat < 2 ^ 63) : x.toInt64.toInt = (x.toNat : Int) := by
+  rw [← Int64.toInt_toBitVec]
+  simp [BitVec.toInt_eq_toNat_cond]
+  omega
+
 end Rtsp.FixedWidth
